@@ -8,13 +8,13 @@ package main
 import (
 	"context"
 	"fmt"
-	"sync/atomic"
 	"math/big"
 	"net"
 	"net/netip"
 	"sort"
 	"strings"
 	"sync"
+	"sync/atomic"
 	"time"
 
 	"github.com/anacrolix/dht/v2/int160"
@@ -32,14 +32,14 @@ func init() {
 }
 
 type gnode struct {
-	ip      []byte
-	port    int
-	id      [20]byte
-	silent  bool
-	respID  [20]byte
-	token   *string
-	nbrs    []cand // what it lists
-	both    bool   // split the list over Nodes and Nodes6
+	ip     []byte
+	port   int
+	id     [20]byte
+	silent bool
+	respID [20]byte
+	token  *string
+	nbrs   []cand // what it lists
+	both   bool   // split the list over Nodes and Nodes6
 }
 
 func (g *gnode) key() string { return hx(g.ip) + "/" + itoa(g.port) }
